@@ -168,7 +168,7 @@ P('C18', 'other', ['grid.ind_to_poi.uni', 'grid.ind_to_poi.cheb', 'grid.poi_scal
   'Chebyshev grid, grid_flat, cdf_getter.', NOTE_T1 + NOTE_T3, 'deductive VCs over reals + exhaustive floating-point enumeration', [])
 
 P('C19', 'other', ['utils._vector_index_prepare', 'utils._vector_index_expand', 'vectors.vector_delta', 'tensors.delta',
-                   'tensors.const.plain'], 30, [],
+                   'tensors.const.plain', 'sig.tensors'], 30, [],
   'Contract-based (all q, all positions): _vector_index_prepare (negative positions counted from the end, ValueError iff out of '
   'range), _vector_index_expand (little-endian bits by loop invariant + inductive lemma 2^k*shr(x,k) <= x < 2^k*(shr(x,k)+1), '
   'ValueError iff not representable), vector_delta / delta element pattern, const without zero list. Bounded: exhaustive positions '
